@@ -148,7 +148,7 @@ func runOne(s *harness.Sub, c queryCase, crumb bool) {
 // ---- (a) exhaustive token sequences ----------------------------------------------------
 
 var alphabet = []string{".Individuals", ".Families", ".Name", ".String", ".Nodes", ".Age", ".Warnings", ".", ".Nope", ".Document", ".Children", ".Husband",
-	"Length", "First", "Last", "Only", "Combine", "NodesWithTagPath", "MergeDocumentsAndIndividuals", "?", "is", "are", "X", "Document1", "Document2",
+	"Length", "First", "Last", "Only", "Combine", "NodesWithTagPath", "MergeDocumentsAndIndividuals", "?", "is", "are", "X", "x", "Document1", "Document2",
 	"1", "0", `"DATE"`, "|", ";", "(", ")", "{", "}", ":", ",", "=", "!", ">", "<"}
 
 func TestCheckTokenSequences(t *testing.T) {
@@ -355,10 +355,26 @@ func genRecursive(t *rapid.T) string {
 	}
 	use := rapid.SampledFrom([]string{"Only(%s)", "Only(%s = 1)", "Only(.Pointer = %s)", "First(%s)", "Last(%s)", "Combine(%s, %s)", "NodesWithTagPath(%s)", "{a: %s}", "{a: %s, b: %s}",
 		"%s", "%s | Length", ". = %s", "%s != %s", "Only(%s) | Only(%s)", "MergeDocumentsAndIndividuals(%s, %s)", "Only({a: %s})", "Only(First(%s))"}).Draw(t, "use")
-	use = strings.ReplaceAll(use, "%s", ref)
+	// (a third of the time every reference is spelled in another case than the definition it means:
+	// "X is x", "Names are .Individuals | Only(NAMES)" - no such variable, unless names are matched
+	// without regard to case, and then it is a variable that refers to itself like any other)
+	spell := func(name string) string { return name }
+	switch rapid.IntRange(0, 5).Draw(t, "refCase") {
+	case 1:
+		spell = strings.ToLower
+	case 4:
+		spell = func(name string) string {
+			if u := strings.ToUpper(name); u != name {
+				return u
+			}
+			return strings.ToLower(name)
+		}
+	}
+	use = strings.ReplaceAll(use, "%s", spell(ref))
 	prog := fmt.Sprintf("%s %s %s | %s", v, rapid.SampledFrom([]string{"is", "are"}).Draw(t, "isare"), root, use)
 	if indirect {
-		prog += fmt.Sprintf("; %s is %s", w, rapid.SampledFrom([]string{v, v + " | Length", "Only(" + v + ")", root + " | " + v}).Draw(t, "back"))
+		bv := spell(v)
+		prog += fmt.Sprintf("; %s is %s", w, rapid.SampledFrom([]string{bv, bv + " | Length", "Only(" + bv + ")", root + " | " + bv}).Draw(t, "back"))
 	}
 	switch rapid.IntRange(0, 3).Draw(t, "tail") {
 	case 0:
